@@ -61,6 +61,9 @@ func c05World(c *Ctx) *refgraph.World {
 		{"file:///v/r/root.json", "file:///v/r/root.json.d/shared.json", "file:///v/r/root.jsonx"},
 		// two documents served from one path, told apart by their query (referred to by absolute URL)
 		{"http://h.example/api/root.json", "http://h.example/api/x.json", "http://h.example/api/x.json?rev=2"},
+		// a root document whose name has no extension (it is a document all the same, not a directory), with a
+		// decoy at the place where a directory of that name would hold the sibling
+		{"file:///v/api/openapi", "file:///v/api/other.json", "file:///v/api/openapi/other.json"},
 	}
 	urls := layouts[c.Intn(len(layouts))]
 	w := &refgraph.World{Root: urls[0], Docs: map[string]wire.V{}}
@@ -194,7 +197,7 @@ func refSpelling(c *Ctx, base string, t c05Target) string {
 }
 
 func runC05(c *Ctx) {
-	c.Res.Rule = "three-document worlds in five layouts (sibling, sub/parent directory, http/https hosts, locations whose URL is a textual prefix of another's, two documents at one path told apart by their query) with definitions / parameters / responses / path items under names containing '/', '~', '~1', '%', '%2F', '#', '?', spaces, braces, quotes, non-ASCII; every such entry, nested pointers through properties / allOf / items, dangling members, indices, names and documents; resolved from every document as base through Resolve{Ref,Parameter,Response,PathItem,Items}WithBase with the root supplied as typed objects, as generic JSON and by location only; independent oracle: net/url ResolveReference + RFC 6901 evaluation of the designated sub-document, normalised by a decode+encode as the requested kind; error iff nothing is designated; nested $refs not followed; root unchanged; the three ways agree; model correspondence on the location-only and generic variants; non-trivial = reference with a non-empty pointer; distinct by (world, base, reference, kind, root form)"
+	c.Res.Rule = "three-document worlds in six layouts (a root without file extension, sibling, sub/parent directory, http/https hosts, locations whose URL is a textual prefix of another's, two documents at one path told apart by their query) with definitions / parameters / responses / path items under names containing '/', '~', '~1', '%', '%2F', '#', '?', spaces, braces, quotes, non-ASCII; every such entry, nested pointers through properties / allOf / items, dangling members, indices, names and documents; resolved from every document as base through Resolve{Ref,Parameter,Response,PathItem,Items}WithBase with the root supplied as typed objects, as generic JSON and by location only; independent oracle: net/url ResolveReference + RFC 6901 evaluation of the designated sub-document, normalised by a decode+encode as the requested kind; error iff nothing is designated; nested $refs not followed; root unchanged; the three ways agree; model correspondence on the location-only and generic variants; non-trivial = reference with a non-empty pointer; distinct by (world, base, reference, kind, root form)"
 	nw := c.N(12, 300)
 	for wi := 0; wi < nw; wi++ {
 		w := c05World(c)
